@@ -90,7 +90,7 @@ Definition plain (ms : list mstep) : Prop := ~ In MAcq ms /\ ~ In MRel ms.
 Lemma body_plain : forall o, plain (body o).
 Proof.
   destruct o; unfold plain; simpl; try (split; intros H; intuition discriminate).
-  split; intro H; apply in_map_iff in H; destruct H as [q [E _]]; discriminate.
+  all: split; intro H; apply in_map_iff in H; destruct H as [q [E _]]; discriminate.
 Qed.
 
 Lemma plain_tail : forall m ms, plain (m :: ms) -> plain ms.
@@ -279,6 +279,9 @@ Proof.
   - eexists. eexists. split; reflexivity.
   - eexists. eexists. split; reflexivity.
   - rewrite run_reads. eexists. eexists. split; reflexivity.
+  - rewrite run_reads. eexists. eexists. split; [reflexivity|]. simpl.
+    replace (combine f (map (st_vals x) f)) with (map (fun p => (p, st_vals x p)) f); [reflexivity|].
+    clear. induction f as [|p f IH]; simpl; [reflexivity | rewrite IH; reflexivity].
 Qed.
 
 Lemma SL_cons : forall s e L, SL s (e :: L) = fst (seq_step (SL s L) (c_op (le_call e))).
